@@ -250,7 +250,7 @@ pub fn run(ctx: &mut Ctx) {
     let mut env_b = Env::new();
     env_b.at_end = false;
     env_b.guarded_alloc = Some(0x5A);
-    let sel = dfam::Sel { tiny: false, shapes: true, big: !quick, shape_cfg_stride: if quick { 9 } else { 1 } };
+    let sel = dfam::Sel { tiny: true, shapes: true, big: !quick, sweep: true, shape_cfg_stride: if quick { 9 } else { 1 } };
     dfam::for_each(ctx, &fams, sel, |ctx, it| {
         ctx.case(
             "schedules-guarded",
@@ -259,10 +259,14 @@ pub fn run(ctx: &mut Ctx) {
                 let ex = DExtra { probe: true, ..Default::default() };
                 c.exec();
                 let a = run_deflate::<Rs>(&it.cfg, &it.inp.data, it.sched, &env_a, &ex, Some(c))?;
-                c.exec();
-                let b = run_deflate::<Rs>(&it.cfg, &it.inp.data, it.sched, &env_b, &ex, None)?;
-                if a.out != b.out {
-                    return Err("output depends on buffer placement".into());
+                // second placement (buffers starting right after a guard page); in the quick tier not for the tiny and
+                // sweep families, whose buffers are a few bytes long either way
+                if !quick || (it.fam != "tiny" && it.fam != "sweep") || it.sched_idx % 4 == 0 {
+                    c.exec();
+                    let b = run_deflate::<Rs>(&it.cfg, &it.inp.data, it.sched, &env_b, &ex, None)?;
+                    if a.out != b.out {
+                        return Err("output depends on buffer placement".into());
+                    }
                 }
                 c.outcome(a.outcome_hash());
                 c.validated();
